@@ -141,3 +141,104 @@ func c20sectionOrder(c *fw.Check) {
 		check("after-parse", m2.String(), m2)
 	}
 }
+
+// c20idOrder: attribute groups and metadata definitions are listed by ASCENDING ID. Every subset
+// (size <= K) of an ID universe with dense prefixes, gaps and large numbers, written in EVERY
+// textual order: after parse + print the `attributes #N` and `!N =` lines, and the module's
+// AttrGroupDefs / MetadataDefs lists, ascend. (Dense IDs in any order are the usual case; a gap
+// followed by an ID smaller than the number of definitions is where a counting sort goes wrong.)
+func c20idOrder(c *fw.Check) {
+	universe := []int{0, 1, 2, 3, 5, 9, 50, 100}
+	maxK := 4
+	if !c.Quick() {
+		maxK = 6
+	}
+	reAttr := regexp.MustCompile(`(?m)^attributes #(\d+) = `)
+	reMD := regexp.MustCompile(`(?m)^!(\d+) = `)
+	type job struct{ ids []int }
+	var jobs []job
+	for mask := 1; mask < 1<<len(universe); mask++ {
+		var ids []int
+		for i, u := range universe {
+			if mask>>i&1 == 1 {
+				ids = append(ids, u)
+			}
+		}
+		if len(ids) > maxK {
+			continue
+		}
+		jobs = append(jobs, job{ids})
+	}
+	c.Extra["id_order_subsets"] = len(jobs)
+	fw.ParallelFor(len(jobs), func(ji int) {
+		ids := jobs[ji].ids
+		perms := permsOf(len(ids))
+		perms = append(perms, identityPerm(len(ids)))
+		for _, p := range perms {
+			var b strings.Builder
+			for _, pi := range p {
+				k := ids[pi]
+				fmt.Fprintf(&b, "declare void @f%d() #%d\n", k, k)
+			}
+			for _, pi := range p {
+				fmt.Fprintf(&b, "attributes #%d = { \"k%d\" }\n", ids[pi], ids[pi])
+			}
+			for _, pi := range p {
+				fmt.Fprintf(&b, "!%d = !{i32 %d}\n", ids[pi], ids[pi])
+			}
+			text := b.String()
+			c.DistinctN(1)
+			m, errs, pan := parseTry(text)
+			if errs != "" || pan != "" {
+				c.Violation("id-order/parse-fails", c20case{Kind: "id-order", A: fw.Trunc(errs+pan, 300), Got: text})
+				continue
+			}
+			var y string
+			if pp := fw.Try(func() { y = m.String() }); pp != "" {
+				c.Violation("id-order/print-panics", c20case{Kind: "id-order", A: pp, Got: text})
+				continue
+			}
+			c.Valid(1)
+			asc := func(kind string, got []int) {
+				if len(got) != len(ids) {
+					c.Violation("id-order/"+kind+"/count", c20case{Kind: "id-order", A: fmt.Sprint(got), B: fmt.Sprint(ids), Got: fw.Trunc(y, 1200)})
+					return
+				}
+				for i := range ids {
+					if got[i] != ids[i] {
+						c.Violation("id-order/"+kind+"/not-ascending", c20case{Kind: "id-order", A: fmt.Sprintf("order %v", got), B: fmt.Sprintf("ascending order %v (input order %v)", ids, p), Got: fw.Trunc(y, 1200)})
+						return
+					}
+				}
+			}
+			num := func(re *regexp.Regexp) []int {
+				var o []int
+				for _, mm := range re.FindAllStringSubmatch(y, -1) {
+					var k int
+					fmt.Sscan(mm[1], &k)
+					o = append(o, k)
+				}
+				return o
+			}
+			asc("attribute-groups/printed", num(reAttr))
+			asc("metadata/printed", num(reMD))
+			var la, lm []int
+			for _, a := range m.AttrGroupDefs {
+				la = append(la, int(a.ID))
+			}
+			for _, d := range m.MetadataDefs {
+				lm = append(lm, int(d.ID()))
+			}
+			asc("attribute-groups/module-list", la)
+			asc("metadata/module-list", lm)
+		}
+	})
+}
+
+func identityPerm(n int) []int {
+	p := make([]int, n)
+	for i := range p {
+		p[i] = i
+	}
+	return p
+}
